@@ -8,7 +8,7 @@ from ..symx import ENG, band
 class C04(core.Prop):
     ID = 'C04'
     CROSSHAIR_KERNELS = ['reader_kernels.py']
-    FUNCTIONS = ['read_cgsmiles', '_find_next_character', '_expand_branch',
+    FUNCTIONS = ['read_cgsmiles', '_find_next_character',
                  '_parse_dialect_string', 'check_and_cast_types']
     STUBS = ['re.finditer on a symbolic string -> backtracking matcher over re._parser tree (symx)',
              'inspect.Signature.bind, networkx: run natively']
